@@ -63,10 +63,19 @@ COARSE = frozenset({"acq", "rel", "create", "upload", "complete", "vget", "vset"
                     "ssd", "sset", "sitem", "sin"})
 
 
+# operations on EXTERNAL collaborators (the storage client, distributed.Variable / Lock, the lock object): what the
+# correspondence compares.  Everything else a thread does between two of them (reads / writes of uploadId, look-ups
+# in the module's private state, get_client()) is internal: any number of such steps, in any order, is the same run.
+EXT = frozenset({"acq", "rel", "create", "upload", "complete", "vget", "vset", "vdel"})
+C2 = frozenset({"acq", "create", "upload", "complete", "vget"})
+
+
 class Sched:
     TIMEOUT = 10.0
 
     def __init__(self, coarse: Optional[frozenset] = None):
+        self.macro: List[int] = []        # the schedule at the granularity of scheduler steps (one entry per `step`)
+        self.mlabels: List[List[str]] = []  # per scheduler step: the EXTERNAL operations performed during it
         self.threads: List[_T] = []
         self.ctrl = _binsem()
         self.tl = threading.local()
@@ -90,6 +99,8 @@ class Sched:
             # coarse mode: no context switch here, the thread takes this step right away
             self.labels.append(f"{t.tid}:{label}")
             self.fine.append(t.tid)
+            if label in EXT and self.mlabels:
+                self.mlabels[-1].append(label)
             return
         t.started = True
         t.pending = label
@@ -162,16 +173,30 @@ class Sched:
         """give thread `tid` one step; a blocked or finished thread stutters"""
         t = self.threads[tid]
         if t.pending == "__hold__" and not t.finished:
+            if self.coarse is not None and self.coarse <= EXT:
+                # external-trace mode: the thread's first step runs its code from the very beginning up to its first
+                # switch point and parks there - however many internal operations (if any) come before it
+                t.started = True
+                t.started_running = True
+                self.macro.append(tid)
+                self.mlabels.append([])
+                t.sem.release()
+                self._wait()
+                return
             t.sem.release()
             self._wait()  # now parked at its first shared operation (or finished)
         self.fine.append(tid)
+        self.macro.append(tid)
         if t.finished:
             self.labels.append(f"{tid}:-")
+            self.mlabels.append(["-"])
             return
         if t.blocked is not None and t.blocked():
             self.labels.append(f"{tid}:{t.pending}!")
+            self.mlabels.append([f"{t.pending}!"])
             return
         self.labels.append(f"{tid}:{t.pending}")
+        self.mlabels.append([t.pending] if t.pending in EXT else [])
         t.started_running = True
         t.sem.release()
         self._wait()
@@ -261,16 +286,37 @@ class TransientError(Exception):
     """an injected one-off failure of a storage call (throttling, 5xx, connection reset)"""
 
 
+class InvalidPart(Exception):
+    """CompleteMultipartUpload lists a part that was never uploaded"""
+
+
+class InvalidPartOrder(Exception):
+    """CompleteMultipartUpload: the part list is not in ascending part-number order"""
+
+
+class EntityTooSmall(Exception):
+    """CompleteMultipartUpload: a listed part other than the last is smaller than the minimal part size"""
+
+
 class FakeS3:
-    """The storage service for one object.  Uploads are active, completed or aborted; only active
-    ones are listed.  With `strict` the service rejects parts / completions / aborts for uploads
-    that are not active (NoSuchUpload), as S3 does; without it dead ids are only recorded."""
+    """The storage service of one bucket.  Uploads belong to a KEY and are active, completed or aborted; only
+    active ones are listed - `list_multipart_uploads(Prefix=p)` answers, as S3 does, with the uploads of EVERY key
+    that begins with `p`, ordered by key then age.  With `strict` the service rejects parts / completions / aborts
+    that name an upload which is not active under the given key (NoSuchUpload), as S3 does; without it dead ids are
+    only recorded.  With `min_size` set the service also applies the completion rules of the multipart API (parts
+    known, ascending order, every part but the last at least `min_size` bytes) and assembles the object.  The
+    arguments of every call are kept in `args` for the argument oracle."""
 
     def __init__(self, sched: Optional[Sched] = None):
         self.strict = False
+        self.min_size: Optional[int] = None
         self.active: List[str] = []
         self.completed: List[str] = []
         self.aborted: List[str] = []
+        self.key_of: Dict[str, str] = {}
+        self.bodies: Dict[str, Dict[int, bytes]] = {}
+        self.objects: Dict[str, bytes] = {}
+        self.args: List[Tuple[str, Dict[str, Any]]] = []
         self.faults: Dict[int, str] = {}  # thread -> "c" (its create call) / "u" (its upload / complete call)
         self.fired: List[int] = []
         self.calls: List[str] = []
@@ -285,26 +331,31 @@ class FakeS3:
 
     def _fault(self, kind: str):
         tid = self.sched.current()
-        if tid is not None and self.faults.get(tid) == kind and tid not in self.fired:
-            self.fired.append(tid)
+        if tid is not None and kind in self.faults.get(tid, "") and (tid, kind) not in self.fired:
+            self.fired.append((tid, kind))
             raise TransientError(f"injected failure of thread {tid}'s storage call")
 
-    def _live(self, uid):
-        if self.strict and uid not in self.active:
+    def _live(self, uid, key=None):
+        if self.strict and (uid not in self.active or (key is not None and self.key_of.get(uid, key) != key)):
             raise NoSuchUpload(uid)
 
     def list_multipart_uploads(self, Bucket, Prefix):  # noqa: N803
         self.sched.yield_point("list")
         self.calls.append("list")
-        return {"Uploads": [{"UploadId": u, "Key": Prefix} for u in self.active]} if self.active else {}
+        self.args.append(("list", {"Bucket": Bucket, "Prefix": Prefix}))
+        hits = [u for u in self.active if self.key_of.get(u, Prefix).startswith(Prefix)]
+        hits.sort(key=lambda u: (self.key_of.get(u, Prefix), int(u[2:])))
+        return {"Uploads": [{"UploadId": u, "Key": self.key_of.get(u, Prefix)} for u in hits]} if hits else {}
 
     def abort_multipart_upload(self, Bucket, Key, UploadId):  # noqa: N803
         self.sched.yield_point("abort")
         self.calls.append(f"abort={UploadId}")
-        self._live(UploadId)
+        self.args.append(("abort", {"Bucket": Bucket, "Key": Key, "UploadId": UploadId}))
+        self._live(UploadId, Key)
         if UploadId in self.active:
             self.active.remove(UploadId)
             self.aborted.append(UploadId)
+            self.bodies.pop(UploadId, None)
         return {}
 
     def create_multipart_upload(self, Bucket, Key, **kw):  # noqa: N803
@@ -314,27 +365,46 @@ class FakeS3:
         uid = f"id{self.ncreate}"
         self.ids.append(uid)
         self.active.append(uid)
+        self.key_of[uid] = Key
+        self.bodies[uid] = {}
         self.calls.append(f"create={uid}")
+        self.args.append(("create", {"Bucket": Bucket, "Key": Key, "kw": dict(kw)}))
         return {"UploadId": uid}
 
     def upload_part(self, PartNumber, Body, Bucket, Key, UploadId):  # noqa: N803
         self.sched.yield_point("upload")
         self._fault("u")
         self.calls.append(f"upload:{PartNumber}={UploadId or chr(34) * 2}")
+        self.args.append(("upload", {"Bucket": Bucket, "Key": Key, "PartNumber": PartNumber, "Body": bytes(Body),
+                                     "UploadId": UploadId}))
         self.used_ids.append(UploadId)
-        self._live(UploadId)
+        self._live(UploadId, Key)
         self.uploads.append((PartNumber, UploadId))
+        self.bodies.setdefault(UploadId, {})[PartNumber] = bytes(Body)
         return {"ETag": f"etag{PartNumber}"}
 
     def complete_multipart_upload(self, Bucket, Key, UploadId, MultipartUpload):  # noqa: N803
         self.sched.yield_point("complete")
         self._fault("u")
         self.calls.append(f"complete={UploadId or chr(34) * 2}")
+        self.args.append(("complete", {"Bucket": Bucket, "Key": Key, "UploadId": UploadId,
+                                       "Parts": [dict(p) for p in MultipartUpload["Parts"]]}))
         self.used_ids.append(UploadId)
-        self._live(UploadId)
+        self._live(UploadId, Key)
+        if self.min_size is not None:
+            nums = [p["PartNumber"] for p in MultipartUpload["Parts"]]
+            if any(a >= b for a, b in zip(nums, nums[1:])):
+                raise InvalidPartOrder(nums)
+            have = self.bodies.get(UploadId, {})
+            if any(n not in have for n in nums):
+                raise InvalidPart(nums)
+            if any(len(have[n]) < self.min_size for n in nums[:-1]):
+                raise EntityTooSmall(nums)
+            self.objects[Key] = b"".join(have[n] for n in nums)
         if UploadId in self.active:
             self.active.remove(UploadId)
             self.completed.append(UploadId)
+            self.bodies.pop(UploadId, None)
         return {"ETag": "final"}
 
 
@@ -350,9 +420,11 @@ class Cluster:
         self.locks: Dict[str, FakeLock] = {}
         self.client = FakeClient()
         self.var_names: List[str] = []
+        self.set_log: List[Tuple[str, Any, Any]] = []  # (name, value, client the Variable was built with)
 
 
-CURRENT: Dict[str, Any] = {"sched": None, "s3": None, "cluster": None, "local": True, "xnames": None, "wof": []}
+CURRENT: Dict[str, Any] = {"sched": None, "s3": None, "cluster": None, "local": True, "xnames": None, "wof": [],
+                           "getfaults": {}, "ngets": {}}
 
 
 def _xname(name):
@@ -375,6 +447,7 @@ class FakeVariable:
     def __init__(self, name=None, client=None):
         name = _xname(name)
         self.name = name
+        self.client = client
         cl: Cluster = CURRENT["cluster"]
         if name not in cl.var_names:
             cl.var_names.append(name)
@@ -382,9 +455,17 @@ class FakeVariable:
     def set(self, value, timeout=None):
         CURRENT["sched"].yield_point("vset")
         CURRENT["cluster"].vars[self.name] = value
+        CURRENT["cluster"].set_log.append((self.name, value, self.client))
 
     def get(self, timeout=None):
         CURRENT["sched"].yield_point("vget")
+        # injected timeouts: the n-th `get` of a thread (1 = the unlocked read, 2 = the read under the lock) raises
+        # although the variable may be set - a slow scheduler; the real `_safe_get` swallows it
+        tid = CURRENT["sched"].current()
+        if tid is not None:
+            n = CURRENT["ngets"][tid] = CURRENT["ngets"].get(tid, 0) + 1
+            if n in CURRENT["getfaults"].get(tid, ()):
+                raise TimeoutError("injected: Variable.get timed out")
         vs = CURRENT["cluster"].vars
         if self.name not in vs:
             raise TimeoutError()
@@ -464,21 +545,67 @@ def instr_mpu_class():
 
     def _get(self):
         CURRENT["sched"].yield_point("rd")
-        return self.__dict__["_uid"]
+        return self.__dict__.get("_uid", "")
 
     def _set(self, v):
         CURRENT["sched"].yield_point("wr")
         self.__dict__["_uid"] = v
 
-    cls = type(
-        "InstrMPU",
-        (_s3.MultiPartUpload,),
-        {"uploadId": property(_get, _set), "s3_client": lambda self: CURRENT["s3"], "__module__": __name__},
-    )
+    ns = {"s3_client": lambda self: CURRENT["s3"], "__module__": __name__}
+    # `uploadId` is observed only while it is a plain instance attribute of the real class; should the class come
+    # to manage it through a descriptor of its own, reads / writes of it are simply not yield points any more
+    if not hasattr(_s3.MultiPartUpload, "uploadId"):
+        ns["uploadId"] = property(_get, _set)
+    cls = type("InstrMPU", (_s3.MultiPartUpload,), ns)
     cls.__qualname__ = "InstrMPU"
     globals()["InstrMPU"] = cls  # picklable by reference
     _CLS["InstrMPU"] = cls
     return cls
+
+
+def build_name(writer, prefix: str) -> Optional[str]:
+    """the name the writer's (private) `_build_name` computes; None when that helper is not there"""
+    fn = getattr(writer, "_build_name", None)
+    try:
+        return None if fn is None else fn(prefix)
+    except Exception:  # pylint: disable=broad-except
+        return None
+
+
+def uid_of(mpu) -> Any:
+    """the object's upload id, through its public attribute (no yield point on the controller thread)"""
+    return getattr(mpu, "uploadId", None)
+
+
+def patch_private(_s3, make_lock, state) -> List[Tuple[Any, str, Any]]:
+    """Substitute, defensively, what the in-process branch keeps in module-level privates: every module-level plain
+    `dict` (today: `_state`) is replaced by the instrumented, EMPTY dict `state`; every module-level name bound to
+    `threading.Lock` (today: `Lock`) by `make_lock`; a module-level `threading` by a proxy whose `Lock` is `make_lock`.
+    Returns the list to restore.  Nothing here is compared with anything: it only makes the real lock schedulable."""
+    import types
+
+    saved: List[Tuple[Any, str, Any]] = []
+    real_lock = threading.Lock
+    for name, val in list(vars(_s3).items()):
+        if name.startswith("__"):
+            continue
+        if type(val) is dict:  # pylint: disable=unidiomatic-typecheck
+            saved.append((_s3, name, val))
+            setattr(_s3, name, state)
+        elif val is real_lock:
+            saved.append((_s3, name, val))
+            setattr(_s3, name, make_lock)
+        elif val is threading:
+            proxy = types.SimpleNamespace(**{k: getattr(threading, k) for k in dir(threading) if not k.startswith("__")})
+            proxy.Lock = make_lock
+            saved.append((_s3, name, val))
+            setattr(_s3, name, proxy)
+    return saved
+
+
+def restore_private(saved) -> None:
+    for mod, name, val in saved:
+        setattr(mod, name, val)
 
 
 def clone(obj, how: str):
@@ -495,6 +622,7 @@ def clone(obj, how: str):
 
 
 KW = {"ContentType": "image/tiff"}
+OBJ_KEYS = ["some/key.tif", "some/key.tif.ovr", "some/kez.tif"]
 
 
 class System:
@@ -549,19 +677,16 @@ class System:
             return lk
 
         CURRENT.update(sched=self.sched, s3=self.s3, cluster=self.cluster, local=workers is None,
-                       xnames=opts.get("xnames"), wof=list(workers or []))
+                       xnames=opts.get("xnames"), wof=list(workers or []), getfaults={}, ngets={})
         self._saved = (
             distributed.get_client,
             distributed.Variable,
             distributed.Lock,
-            _s3._state,  # pylint: disable=protected-access
-            _s3.Lock,
         )
         distributed.get_client = fake_get_client
         distributed.Variable = FakeVariable
         distributed.Lock = FakeDLock
-        _s3._state = self.state  # pylint: disable=protected-access
-        _s3.Lock = make_lock
+        self._saved_private = patch_private(_s3, make_lock, self.state)
 
         cls = instr_mpu_class()
         # ---- history (runs on this thread: yield points are no-ops, steps are sequential)
@@ -599,11 +724,12 @@ class System:
         self.base_calls = len(self.s3.calls)
         self.base_uploads = len(self.s3.uploads)
         self.base_used = len(self.s3.used_ids)
+        self.base_args = len(self.s3.args)
         left = None
         for nm in self.cluster.var_names:
             left = self.cluster.vars.get(nm, None)
         if workers is None:
-            self.model_extra = " P" if dict.__contains__(self.state, "mpu_lock") else ""
+            self.model_extra = " P" if len(self.made_locks) > 0 else ""  # an earlier phase created the process-wide lock
         else:
             self.model_extra = "" if not opts.get("pre") else (" N" if left is None else " S")
 
@@ -611,16 +737,29 @@ class System:
         # build_without_client: the writer / graph is built before a dask client exists (no `prep_client`,
         # every worker creates the Variable itself), the tasks then run on a cluster
         CURRENT["local"] = workers is None or bool(opts.get("build_without_client"))
-        mpu = cls("bucket", "some/key.tif")
-        writer = mpu.writer(dict(KW))  # real code: looks for a client itself
-        CURRENT["local"] = workers is None
-        if workers is None:
-            self.writers = [writer]
-            wof = [0] * len(kinds)
-        else:
+        objs = opts.get("objects")  # per thread: which of SEVERAL objects (keys) it writes to - cluster variant only
+        self.objs = objs
+        if objs:
+            nobj = max(objs) + 1
+            self.obj_keys = [OBJ_KEYS[k] for k in range(nobj)]
+            w0 = [cls("bucket", key).writer(dict(KW)) for key in self.obj_keys]
+            CURRENT["local"] = False
             how = opts.get("copies", "pickle")
-            self.writers = [clone(writer, how) for _ in range(max(workers) + 1)]
-            wof = workers
+            # one copy of every object's writer per worker; copy index = worker * nobj + object
+            self.writers = [clone(w0[k], how) for _ in range(max(workers) + 1) for k in range(nobj)]
+            wof = [w * nobj + k for w, k in zip(workers, objs)]
+            CURRENT["wof"] = list(wof)
+        else:
+            mpu = cls("bucket", "some/key.tif")
+            writer = mpu.writer(dict(KW))  # real code: looks for a client itself
+            CURRENT["local"] = workers is None
+            if workers is None:
+                self.writers = [writer]
+                wof = [0] * len(kinds)
+            else:
+                how = opts.get("copies", "pickle")
+                self.writers = [clone(writer, how) for _ in range(max(workers) + 1)]
+                wof = workers
         self.wof = wof
         late = opts.get("late_clone") or [None] * len(kinds)
 
@@ -633,14 +772,27 @@ class System:
             return wr
 
         # "w1!c" / "f!u": the thread's create call, resp. its upload_part / complete call, raises once
+        # "w1!g" / "w1!G" / "w1!gG": the thread's first / second / both `Variable.get` calls time out (swallowed by
+        # the real `_safe_get`); flags combine ("w1!c!g")
         base = [k.split("!")[0] for k in kinds]
-        self.s3.faults = {i: k.split("!")[1] for i, k in enumerate(kinds) if "!" in k}
+        flags = ["".join(k.split("!")[1:]) for k in kinds]
+        self.s3.faults = {i: "".join(c for c in f if c in "cu") for i, f in enumerate(flags) if any(c in f for c in "cu")}
+        CURRENT["getfaults"] = {i: {n for c, n in (("g", 1), ("G", 2)) if c in f} for i, f in enumerate(flags)
+                                if "g" in f or "G" in f}
+        CURRENT["ngets"] = {}
+        def begin(i):
+            # no line of the real code runs before the thread is given its first step: whatever the code does ahead
+            # of its first shared operation (e.g. evaluate `mpu.started`) belongs to that step, not to the set-up
+            if late[i] is None:
+                self.sched.hold()
+            return pick(i)
+
         for i, k in enumerate(base):
             if k == "f":
-                self.sched.spawn(lambda i=i: pick(i).finalise([{"PartNumber": 1, "ETag": "etag1"}]))
+                self.sched.spawn(lambda i=i: begin(i).finalise([{"PartNumber": 1, "ETag": "etag1"}]))
             else:
                 part = int(k[1:])
-                self.sched.spawn(lambda i=i, part=part: pick(i)(part, b"x" * part))
+                self.sched.spawn(lambda i=i, part=part: begin(i)(part, b"x" * part))
         deps: Dict[int, List[int]] = {}
         if opts.get("gate"):
             # a finalise is given its parts by the writes: it cannot start before they returned
@@ -659,7 +811,8 @@ class System:
     def close(self):
         self.sched.abort()
         d, s3 = self._dist, self._s3mod
-        d.get_client, d.Variable, d.Lock, s3._state, s3.Lock = self._saved  # pylint: disable=protected-access
+        d.get_client, d.Variable, d.Lock = self._saved
+        restore_private(self._saved_private)
 
     # ---- observation
     def canon(self, uid) -> str:
@@ -686,22 +839,41 @@ class System:
             return type(t.exc).__name__
         return "ok"
 
+    def name_numbers(self) -> Tuple[List[int], List[int]]:
+        """per writer copy: the Variable / Lock names the REAL `_build_name` computes, numbered by first occurrence"""
+        out = []
+        for prefix in ("MPUpload", "MPULock"):
+            ids: Dict[str, int] = {}
+            out.append([ids.setdefault(build_name(w, prefix), len(ids)) for w in self.writers])
+        return out[0], out[1]
+
     def lock_holder(self) -> Optional[int]:
         if self.workers is None:
-            # holder of the lock object that is stored in `_state`
-            lk = dict.get(self.state, "mpu_lock", None)
-            return None if lk is None else lk.holder
+            # holder of (any of) the lock object(s) the real code created
+            for lk in self.made_locks:
+                if lk.holder is not None:
+                    return lk.holder
+            return None
         for lk in self.cluster.locks.values():
             if lk.holder is not None:
                 return lk.holder
         return None
 
-    def describe(self) -> str:
-        """canonical text of the run, same format as the Lean driver"""
+    def describe(self, external: bool = False) -> str:
+        """canonical text of the run, same format as the Lean driver; `external`: per scheduler step only the
+        operations on external collaborators performed during it (`~` = none)"""
         nw = 1 if self.workers is None else max(self.workers) + 1
-        uids = [self.canon(w.mpu.__dict__["_uid"]) for w in self.writers[:nw]]
+        if getattr(self, "objs", None):
+            nw = len(self.writers)
+        uids = [self.canon(uid_of(w.mpu)) for w in self.writers[:nw]]
         if self.workers is None:
             ids = "uid=" + uids[0]
+        elif getattr(self, "objs", None):
+            vn, _ = self.name_numbers()
+            vals = {}
+            for c, n in enumerate(vn):
+                vals[n] = self.cluster.vars.get(build_name(self.writers[c], "MPUpload"), None)
+            ids = "uid=" + ",".join(uids) + " var=" + ",".join(self.canon(vals[n]) for n in sorted(vals))
         else:
             v = None
             for nm in self.cluster.var_names:
@@ -710,8 +882,11 @@ class System:
         outs = ",".join(self.outcome(i) for i in range(len(self.kinds)))
         h = self.lock_holder()
         calls = [self.canon_call(c) for c in self.s3.calls[self.base_calls:]]
+        labels = self.sched.labels
+        if external:
+            labels = [f"{t}:{'+'.join(ls) or '~'}" for t, ls in zip(self.sched.macro, self.sched.mlabels)]
         return (
-            f"{','.join(self.sched.labels)} ; {','.join(calls)} ; {ids} ; {outs} ; "
+            f"{','.join(labels)} ; {','.join(calls)} ; {ids} ; {outs} ; "
             f"lock={'free' if h is None else h}"
         )
 
@@ -719,33 +894,97 @@ class System:
 SEQ_OPS = ["w", "f", "ca", "cA", "cc", "c1", "c2", "c3"]
 
 
-def run_seq(ops: List[str]) -> Dict[str, Any]:
-    """One shared in-process `MultiPartUpload` + writer over time: writes, finalise and every spelling
-    of `cancel` in sequence (no concurrency), against the strict storage service."""
-    import distributed
-    from odc.geo.cog import _s3
+def bad_call_args(args, kinds=None) -> List[str]:
+    """every storage call of an attempt names the object (Bucket / Key), `create_multipart_upload` gets the
+    writer's keyword arguments, `upload_part` the body of ITS part (the scheduler threads write b"x" * part),
+    `complete_multipart_upload` the part records it was given"""
+    WKW = KW
+    bad = []
+    for nm, a in args:
+        if nm in ("create", "upload", "complete", "abort") and (a.get("Bucket"), a.get("Key")) != ("bucket", "some/key.tif"):
+            bad.append(f"{nm}: Bucket/Key {a.get('Bucket')!r}/{a.get('Key')!r}")
+        if nm == "create" and a.get("kw") != WKW:
+            bad.append(f"create: keyword arguments {a.get('kw')} (writer was given {WKW})")
+        if nm == "upload" and kinds is not None and a["Body"] != b"x" * a["PartNumber"]:
+            bad.append(f"upload_part {a['PartNumber']}: body {a['Body'][:20]!r}")
+        if nm == "complete" and kinds is not None and a["Parts"] != [{"PartNumber": 1, "ETag": "etag1"}]:
+            bad.append(f"complete: parts {a['Parts']}")
+    return bad
 
-    s3 = FakeS3()
-    s3.strict = True
-    CURRENT.update(sched=Sched(), s3=s3, cluster=Cluster(), local=True, xnames=None, wof=[])
-    saved = (distributed.get_client, distributed.Variable, distributed.Lock, _s3._state, _s3.Lock)  # pylint: disable=protected-access
-    distributed.get_client, distributed.Variable, distributed.Lock = fake_get_client, FakeVariable, FakeDLock
-    _s3._state, _s3.Lock = InstrDict(), FakeLock  # pylint: disable=protected-access
+
+class _Patched:
+    """context: the fakes at the client boundary installed for sequential (unscheduled) runs of the real code"""
+
+    def __init__(self, local: bool = True, strict: bool = True):
+        self.local, self.strict = local, strict
+
+    def __enter__(self):
+        import distributed
+        from odc.geo.cog import _s3
+
+        self.s3 = FakeS3()
+        self.s3.strict = self.strict
+        self.cluster = Cluster()
+        CURRENT.update(sched=Sched(), s3=self.s3, cluster=self.cluster, local=self.local, xnames=None, wof=[],
+                       getfaults={}, ngets={})
+        self._mods = (distributed, _s3)
+        self._saved = (distributed.get_client, distributed.Variable, distributed.Lock)
+        distributed.get_client, distributed.Variable, distributed.Lock = fake_get_client, FakeVariable, FakeDLock
+        self._saved_private = patch_private(_s3, FakeLock, InstrDict())
+        return self
+
+    def __exit__(self, *exc):
+        d, _ = self._mods
+        d.get_client, d.Variable, d.Lock = self._saved
+        restore_private(self._saved_private)
+        return False
+
+
+OTHER_KEY_SUFFIX = ".ovr"
+
+
+def run_seq(ops: List[str], resumed: bool = False) -> Dict[str, Any]:
+    """One shared in-process `MultiPartUpload` + writer over time: writes, finalise, every spelling of `cancel`
+    and `_ensure_init(final_write=True)` ("e") in sequence (no concurrency), against the strict storage service.
+    `resumed`: the object is built with `uploadId="id1"`, an active upload somebody else initiated.
+    "X" / "Y": somebody initiates / completes an upload for ANOTHER key that begins with this object's key
+    (direct calls to the service, not odc-geo code) - model `SeqK`."""
     steps = []
-    try:
-        mpu = instr_mpu_class()("bucket", "some/key.tif")
+    with _Patched() as px:
+        s3 = px.s3
+        if resumed:
+            s3.create_multipart_upload(Bucket="bucket", Key="some/key.tif")
+            s3.calls.clear()
+            s3.args.clear()
+            mpu = instr_mpu_class()("bucket", "some/key.tif", uploadId="id1")
+        else:
+            mpu = instr_mpu_class()("bucket", "some/key.tif")
         writer = mpu.writer(dict(KW))
         parts: List[Any] = []
         part = 0
+        other = "some/key.tif" + OTHER_KEY_SUFFIX
+        foreign: List[str] = []
         for op in ops:
-            n0, before = len(s3.calls), mpu.__dict__["_uid"]
+            n0, before = len(s3.calls), uid_of(mpu)
             try:
-                if op == "w":
+                if op == "X":
+                    foreign.append(s3.create_multipart_upload(Bucket="bucket", Key=other)["UploadId"])
+                    del s3.calls[n0:]
+                elif op == "Y":
+                    if foreign:
+                        s3.complete_multipart_upload(Bucket="bucket", Key=other, UploadId=foreign.pop(0),
+                                                     MultipartUpload={"Parts": []})
+                    del s3.calls[n0:]
+                elif op == "w":
                     part += 1
                     parts.append(writer(part, b"x" * part))
                 elif op == "f":
                     writer.finalise(parts or [{"PartNumber": 1, "ETag": "etag1"}])
                     parts = []
+                elif op == "e":
+                    ensure = getattr(writer, "_ensure_init", None)  # private: callers check `has_ensure_init()` first
+                    got = ensure(final_write=True)
+                    assert got is mpu
                 else:
                     arg = {"ca": "all", "cA": ":ALL:", "cc": ""}.get(op, "id" + op[1:])
                     mpu.cancel(arg)
@@ -755,15 +994,145 @@ def run_seq(ops: List[str]) -> Dict[str, Any]:
                 res = "NoSuchUpload"
             except Exception as e:  # pylint: disable=broad-except
                 res = type(e).__name__
-            steps.append({"op": op, "res": res, "before": before, "after": mpu.__dict__["_uid"],
-                          "calls": s3.calls[n0:], "active": list(s3.active)})
+            own_active = [u for u in s3.active if s3.key_of.get(u) == "some/key.tif"]
+            steps.append({"op": op, "res": res, "before": before, "after": uid_of(mpu),
+                          "calls": s3.calls[n0:], "active": own_active,
+                          "foreign": [u for u in s3.active if s3.key_of.get(u) == other]})
         q = chr(34) * 2
         srt = lambda l: "[" + ",".join(sorted(l, key=lambda u: int(u[2:]))) + "]"  # noqa: E731
-        text = (f"{','.join(st['res'] for st in steps)} ; {','.join(s3.calls)} ; uid={mpu.__dict__['_uid'] or q} ; "
-                f"active={srt(s3.active)} ; completed={srt(s3.completed)} ; aborted={srt(s3.aborted)}")
-    finally:
-        distributed.get_client, distributed.Variable, distributed.Lock, _s3._state, _s3.Lock = saved  # pylint: disable=protected-access
-    return {"steps": steps, "text": text}
+        own = lambda l: [u for u in l if s3.key_of.get(u) == "some/key.tif"]  # noqa: E731
+        text = (f"{','.join(st['res'] for st in steps)} ; {','.join(s3.calls)} ; uid={uid_of(mpu) or q} ; "
+                f"active={srt(own(s3.active))} ; completed={srt(own(s3.completed))} ; aborted={srt(own(s3.aborted))}")
+        if any(o in ("X", "Y") for o in ops):
+            text += f" ; foreign={srt([u for u in s3.active if s3.key_of.get(u) == other])}"
+        args = list(s3.args)
+    return {"steps": steps, "text": text, "args": args}
+
+
+def has_ensure_init() -> bool:
+    """is the (private, caller-less) entry point `_ensure_init(final_write=...)` there to be driven?"""
+    import inspect
+
+    from odc.geo.cog import _s3
+
+    fn = getattr(_s3.DelayedS3Writer, "_ensure_init", None)
+    try:
+        return fn is not None and "final_write" in inspect.signature(fn).parameters
+    except (TypeError, ValueError):
+        return False
+
+
+def run_up(min_size: int, writes: List[Tuple[int, str]], plist: List[int], writes2: List[Tuple[int, str]],
+           data_kind: str = "bytes") -> Dict[str, Any]:
+    """The in-process `DelayedS3Writer` with the bodies of its parts (model `Up`): writes, `finalise` of the listed
+    parts (the records the writes returned; `{"PartNumber": p, "ETag": ...}` for a part never written), further
+    writes - against the service's completion rules.  The run stops at the first call that raises."""
+    conv = {"bytes": bytes, "bytearray": bytearray, "memoryview": memoryview}[data_kind]
+    with _Patched() as px:
+        s3 = px.s3
+        s3.min_size = min_size
+        mpu = instr_mpu_class()("bucket", "some/key.tif")
+        writer = mpu.writer(dict(KW))
+        res: List[str] = []
+        recs: Dict[int, Any] = {}
+        results: List[Any] = []
+
+        def guarded(fn):
+            try:
+                fn()
+                return "ok"
+            except AssertionError:
+                return "ERR:AssertionError"
+            except (NoSuchUpload, InvalidPart, InvalidPartOrder, EntityTooSmall) as e:
+                return "ERR:" + type(e).__name__
+            except Exception as e:  # pylint: disable=broad-except
+                return "ERR:other:" + type(e).__name__
+
+        def do_writes(ws):
+            for p, d in ws:
+                r = writer(p, conv(d.encode()))
+                recs[p] = r
+                results.append(r)
+
+        r1 = guarded(lambda: do_writes(writes))
+        res.append("w:" + r1)
+        fin_result = None
+        if r1 == "ok":
+            parts = [recs.get(p, {"PartNumber": p, "ETag": f"etag{p}"}) for p in plist]
+
+            def fin():
+                nonlocal fin_result
+                fin_result = writer.finalise(parts)
+
+            r2 = guarded(fin)
+            res.append("f:" + r2)
+            if r2 == "ok":
+                res.append("w:" + guarded(lambda: do_writes(writes2)))
+        calls = []
+        for nm, a in s3.args:
+            if nm == "create":
+                calls.append(f"create={a and s3.ids[sum(1 for c in calls if c.startswith('create='))]}")
+            elif nm == "upload":
+                calls.append(f"upload:{a['PartNumber']}={a['UploadId'] or chr(34) * 2}:{a['Body'].decode()}")
+            elif nm == "complete":
+                calls.append(f"complete={a['UploadId'] or chr(34) * 2}:{'.'.join(str(p['PartNumber']) for p in a['Parts'])}")
+        obj = s3.objects.get("some/key.tif")
+        text = (f"{','.join(res)} ; {','.join(calls)} ; obj{'N' if obj is None else '=' + obj.decode()} ; "
+                f"uid={uid_of(mpu) or chr(34) * 2} ; creates={s3.ncreate}")
+        return {"text": text, "res": res, "object": obj, "ncreate": s3.ncreate, "args": list(s3.args),
+                "results": results, "fin_result": fin_result, "used_ids": list(s3.used_ids), "ids": list(s3.ids)}
+
+
+def run_writer_prep(explicit: bool, ambient: bool) -> Dict[str, Any]:
+    """`MultiPartUpload.writer(kw, client=...)` (model `writerPrep`): which client, if any, the new writer was
+    prepared with (`prep_client`: the shared Variable is built with that client and reset to None)"""
+    with _Patched(local=not ambient) as px:
+        mpu = instr_mpu_class()("bucket", "some/key.tif")
+        mine = FakeClient()
+        kw = dict(KW)
+        w = mpu.writer(kw, client=mine) if explicit else mpu.writer(kw)
+        log = list(px.cluster.set_log)
+        who = "N"
+        if log:
+            who = "explicit" if log[-1][2] is mine else "ambient" if log[-1][2] is px.cluster.client else "other"
+        return {"text": who, "log": [(n, v) for n, v, _ in log], "kw_is_same": w.kw == KW and w.mpu is mpu,
+                "nsets": len(log)}
+
+
+def run_upload_glue(spill: int, extra: Dict[str, Any], with_client: bool) -> Dict[str, Any]:
+    """`MultiPartUpload.upload(...)` (model `uploadWriter`) with `_s3.mpu_write` replaced by a recorder: which
+    writer - if any - and which arguments the real `upload` hands to `mpu_write`"""
+    from odc.geo.cog import _s3
+
+    seen: Dict[str, Any] = {}
+
+    def recorder(chunks, write=None, **kw):
+        seen.update(chunks=chunks, write=write, kw=kw)
+        return "the-delayed"
+
+    with _Patched(local=True) as px:
+        mpu = instr_mpu_class()("bucket", "some/key.tif")
+        from odc.geo.cog import _mpu
+
+        saved = [(m, getattr(m, "mpu_write")) for m in (_s3, _mpu) if hasattr(m, "mpu_write")]
+        for m, _ in saved:
+            m.mpu_write = recorder
+        try:
+            chunks = object()
+            kw = dict(extra)
+            if with_client:
+                kw["client"] = FakeClient()
+            out = mpu.upload(chunks, spill_sz=spill, **kw)
+        finally:
+            for m, fn in saved:
+                m.mpu_write = fn
+        if not seen:
+            return {"unavailable": "upload() did not reach mpu_write through odc.geo.cog._s3 / _mpu"}
+        w = seen.get("write")
+        text = "N" if w is None else f"min_write_sz={w.min_write_sz},min_part={w.min_part},max_part={w.max_part}"
+        return {"text": text, "out": out, "chunks_same": seen.get("chunks") is chunks, "kw": seen.get("kw"),
+                "writer_kw": None if w is None else dict(w.kw), "writer_mpu_same": w is not None and w.mpu is mpu,
+                "prepared": len(px.cluster.set_log)}
 
 
 def run_schedule(kinds, workers, prefix: List[int], complete: bool = True,
@@ -823,6 +1192,8 @@ def observe(sysm: System) -> Dict[str, Any]:
     bc = sysm.base_create
     return {
         "fine": list(sysm.sched.fine),
+        "macro": list(sysm.sched.macro),
+        "xtext": sysm.describe(external=True),
         "labels": list(sysm.sched.labels),
         "calls": [sysm.canon_call(c) for c in sysm.s3.calls[sysm.base_calls:]],
         "text": sysm.describe(),
@@ -834,6 +1205,10 @@ def observe(sysm: System) -> Dict[str, Any]:
         "ids": [sysm.canon(u) for u in sysm.s3.ids[bc:]],
         "used_ids": [sysm.canon(u) for u in sysm.s3.used_ids[sysm.base_used:]],
         "uploads": [(p, sysm.canon(u)) for p, u in sysm.s3.uploads[sysm.base_uploads:]],
+        "bad_args": [] if getattr(sysm, "objs", None) else bad_call_args(sysm.s3.args[sysm.base_args:], sysm.kinds),
+        "objects": None if not getattr(sysm, "objs", None) else {
+            "keys": sysm.obj_keys, "copies": list(sysm.wof), "names": sysm.name_numbers(),
+            "args": [(n, {k: v for k, v in a.items() if k != "Body"}) for n, a in sysm.s3.args[sysm.base_args:]]},
         "deadlock": bool(getattr(sysm, "deadlock", False)),
         "lock": sysm.lock_holder(),
     }
